@@ -19,7 +19,7 @@ META = {
         'marks, and the column is NULL exactly when equal to the form; R3 in _find_helper the second round is control-dependent on '
         'empty first-round results and a normalizer, both rounds range over the same (pos, forms) mapping - the lemmatizer result '
         'or {pos: {form}} when it is empty - and pass pos per item; R4 de-duplication is order preserving and set-order free '
-        '(C16 analysis of _find_helper).'),
+        '(C16 analysis of _find_helper). R5 every <Form> becomes a row (binding analysis of C01-R2).'),
     'decides': ['three form predicates agree', 'normaliser identity', 'conditional back-off', 'order-preserving dedupe'],
     'not_decided': ['which rows match (SQL / Unicode semantics)', 'interaction cases enumerated in the property (value level)'],
     'assumptions': [],
